@@ -127,6 +127,11 @@ class RemoteWorker(Worker, metaclass=RemoteWorkerMeta):
             except:
                 pass
 
+        # the backend runs the main script as '__new_main__' (see _run_backend), results and exceptions
+        # whose classes are defined there are pickled by reference to that name
+        if '__main__' in sys.modules:
+            sys.modules.setdefault('__new_main__', sys.modules['__main__'])
+
         self._startup_sync = threading.Event()
         self._remote_side = False # tells us whether the class exists on the remote end
         self._is_backend = False # True if a class is accessed from the _run_backend
